@@ -490,3 +490,55 @@ Definition mwcase_spec (c : mwcase) : bool :=
     else negb ((mw_cls c =? 0) || (mw_cls c =? 1))
   else true.
 Definition check_mwcases := check_cases mwcase_agree mwcase_spec.
+
+(* ---------- where the messages are sent: the IdP endpoint for a binding ---------- *)
+(* GetSSOBindingLocation / GetSLOBindingLocation / GetArtifactBindingLocation:
+   for each IDPSSODescriptor, for each endpoint of the list: the first whose
+   Binding equals the wanted one wins and its LOCATION is returned (also when
+   empty; ResponseLocation is never used); "" when there is none.  The endpoints
+   of all descriptors in document order: (binding, Location, ResponseLocation). *)
+Definition idp_endpoint := (string * string * string)%type.
+Fixpoint first_endpoint (b : string) (eps : list idp_endpoint) : option idp_endpoint :=
+  match eps with
+  | [] => None
+  | (b', loc, rl) :: r => if seqb b' b then Some (b', loc, rl) else first_endpoint b r
+  end.
+Definition binding_location (b : string) (eps : list idp_endpoint) : string :=
+  match first_endpoint b eps with Some (_, loc, _) => loc | None => EmptyString end.
+
+Definition binding_urn (b : binding) : string := match b with BRedirect => HTTP_REDIRECT | BPost => HTTP_POST end.
+
+(* what the receiver sees as the target: for a redirect the URL text before '?',
+   for a POST form the action (locations in the check are plain URLs that the
+   template's URL normaliser leaves unchanged) *)
+Definition target_of (b : binding) (dest : string) : string :=
+  match b with BRedirect => fst (fst (split_url dest)) | BPost => dest end.
+
+(* destination case: the endpoints of the relevant list (SSO for AuthnRequest,
+   SLO for the logout messages), message kind, binding; observed: the target
+   of the emitted URL / form and the Destination attribute of the message
+   recovered from the wire *)
+Record blcase := {
+  bl_eps : list idp_endpoint; bl_kind : Z; bl_binding : Z;
+  bl_target : string; bl_destination : option string }.
+Definition blcase_agree (c : blcase) : bool :=
+  let b := binding_of (bl_binding c) in
+  let dest := binding_location (binding_urn b) (bl_eps c) in
+  seqb (target_of b dest) (bl_target c) && opt_s_eqb (opt_nonempty dest) (bl_destination c).
+(* requests go to the Location of the first endpoint of that binding; a
+   LogoutResponse to its Location or its ResponseLocation; URL / form action
+   and the Destination attribute name the same place *)
+Definition blcase_spec (c : blcase) : bool :=
+  let b := binding_of (bl_binding c) in
+  let ok (d : string) := seqb (target_of b d) (bl_target c) && opt_s_eqb (opt_nonempty d) (bl_destination c) in
+  match first_endpoint (binding_urn b) (bl_eps c) with
+  | None => ok EmptyString
+  | Some (_, loc, rl) =>
+      ok loc || (match kind_of (bl_kind c) with LogoutResp => nonempty rl && ok rl | _ => false end)
+  end.
+Definition check_blcases := check_cases blcase_agree blcase_spec.
+
+(* lookup case: GetArtifactBindingLocation / Get*BindingLocation called directly *)
+Record glcase := { gl_eps : list idp_endpoint; gl_binding : string; gl_out : string }.
+Definition glcase_agree (c : glcase) : bool := seqb (binding_location (gl_binding c) (gl_eps c)) (gl_out c).
+Definition check_glcases := check_cases glcase_agree glcase_agree.
